@@ -37,7 +37,7 @@ UNITS = {
     # engine: (mass unit in kg, velocity unit in m/s, energy unit in J for kinetic energies the engine reports)
     "turtlemd": (AMU, 1e3, 1e3 / 6.02214076e23),
     "gromacs": (AMU, 1e3, 1e3 / 6.02214076e23),
-    "lammps": (AMU, 1e5, None),
+    "lammps": (AMU, 1e5, AMU * 1e10),  # kinetic_energy() of file velocities: g/mol (A/fs)^2
     "cp2k": (ME, BOHR / AUT, 4.3597447222071e-18),
     "ase": (AMU, np.sqrt(EV / AMU), EV),
 }
